@@ -83,7 +83,7 @@ static void sweep_case(long item)
                 memcpy(args + n, f, fn); n += fn;
         }
         snprintf(ARG_NOTE, sizeof ARG_NOTE, "sweep: numeral #%d for type %d width %zu at argument position %d of %d", num, type, WIDTHS[wi], pos + 1, nargs);
-        ARG_CAP_HINT = chance(30) ? n + 1 + rn(3) : 0;          /* a third of the lines on a command capacity that just holds the arguments */
+        ARG_CAP_HINT = chance(30) ? n + rn(4) : 0;          /* a third of the lines on a command capacity that just holds the arguments, or is one byte short of that */
         struct cat_command *c = args_world(nv, chance(70), chance(30), chance(50));
         args_run_and_judge(c, args, n, "C04");
         nontrivial(hash_bytes(args, n, hash_u64((uint64_t)(type * 64 + wi * 8 + pos), 4)));
@@ -131,7 +131,7 @@ static void random_case(void)
         }
         if (chance(3)) args[n++] = ',';
         snprintf(ARG_NOTE, sizeof ARG_NOTE, "random: %d variable(s), %u argument(s)", nv, nargs);
-        ARG_CAP_HINT = chance(30) ? n + 1 + rn(3) : 0;          /* a third of the lines on a command capacity that just holds the arguments */
+        ARG_CAP_HINT = chance(30) ? n + rn(4) : 0;          /* a third of the lines on a command capacity that just holds the arguments, or is one byte short of that */
         struct cat_command *c = args_world(nv, chance(70), chance(30), chance(50));
         args_run_and_judge(c, args, n, "C04");
         uint64_t h = hash_bytes(args, n, 40); for (int j = 0; j < nv; j++) h = hash_u64((uint64_t)(AF[j].type * 100 + (int)AF[j].size), h);
